@@ -27,7 +27,7 @@ import (
 // result and the race detector must stay silent (GORACE=halt_on_error=1 ends the
 // process; the case is written to c11_current_case.txt before the goroutines start).
 
-var evC11 = ev.New("C11", "a family of frames sharing storage (base, Slice, Sort, Filter, Select, Copy siblings; string and enum columns), shared clause values, shared order/instruction slices, one shared eval.Context and one shared Grouper; "+
+var evC11 = ev.New("C11", "a family of frames sharing storage (base, Slice, Sort, Filter, Select, Copy siblings; string and enum columns), shared clause values, shared order/instruction slices, one shared eval.Context (or a private one built inside the goroutine) and one shared Grouper; "+
 	"a multiset of 2-8 operations (Filter incl. like/ilike and predicate functions, Sort, Distinct, GroupBy/Aggregate, Aggregate/QFrames on the shared Grouper, Apply, Eval, Select/Slice/Copy, typed views, ToCSV/ToJSON/String, Equals) "+
 	"run solo and then concurrently behind a barrier, 3 repetitions with GOMAXPROCS 2/8/16, binary built with -race; oracle: every concurrent result equals the solo result and no race report; "+
 	"non-trivial = >=2 operations on members sharing a column or index, at least one of them allocating scratch state (Sort, GroupBy, Distinct, like/ilike, Aggregate, Eval); distinct = FNV-64 of (table, operation list)")
